@@ -592,6 +592,7 @@ func (e *Engine) VerifyFunc(fn *ssa.Function, c *Contract, prop string) {
 	}
 	e.curProp = prop
 	e.bv = c.BV
+	e.curContract = c
 	e.pathCount = 0
 	e.FuncsDone = append(e.FuncsDone, e.curFunc)
 	defer func() {
@@ -1003,6 +1004,9 @@ func (e *Engine) step(st *State, in ssa.Instruction) {
 			_ = id
 		}
 		if obj := x.Object(); obj != nil {
+			if tv, isVar := obj.(*types.Var); isVar && tv.IsField() {
+				return // the field name in a selector x.f is not a variable
+			}
 			v := e.getOpt(st, x.X)
 			if v != nil {
 				if x.IsAddr {
@@ -1072,6 +1076,7 @@ func (e *Engine) step(st *State, in ssa.Instruction) {
 				st.privClean = map[string]bool{}
 			}
 			st.privClean[a.Ref] = (v.Ty != nil && !carriesRef(v.Ty, 0)) || !e.mentionsPrivate(st, vt)
+			st.privClean["holds:"+a.Ref] = e.isPrivateValue(st, vt, v.Ty)
 		}
 		e.store(st, a, vt)
 	case *ssa.UnOp:
@@ -1165,7 +1170,7 @@ func (e *Engine) step(st *State, in ssa.Instruction) {
 		}
 		fr.defers = append(fr.defers, d)
 	case *ssa.Go:
-		panic(unsupported{"go statement " + e.posOf(x.Pos())})
+		e.doGo(st, x)
 	case *ssa.Send, *ssa.Select, *ssa.MakeChan:
 		panic(unsupported{"channel operation " + e.posOf(in.Pos())})
 	default:
